@@ -211,6 +211,25 @@ def run_cc(prop, tier):
             summ8["variant"] = v8
             rsum.append(summ8)
         extra_cov = {"rewriting_runs_without_panic": {"recorder": rsum}}
+    if prop == "C06":
+        # extraction inside rewriting (ExtractionSubst) and after it, also in the explanations build (syntactic
+        # insertion path): a panic whose site is the extractor or its support functions in egraph/mod.rs is an
+        # extraction that does not succeed
+        import rw
+        rsum = []
+        for v6 in ["default", "expl"]:
+            bad6, panics6, st6, summ6, lines6 = rw.rw_trace(tier, "C06", 3, variant=v6)
+            for f in panics6:
+                fn = site_fn(f.get("site", ""))
+                if "src/extract/" in fn or fn.split("::")[-1] in ("usages", "class_nf", "refresh_internals", "enodes_applied"):
+                    f["prop"] = "C06"
+                    f["what"] = "panic in the extractor during / after rewriting"
+                    f.setdefault("universe", "rewriting(A)")
+                    f["variant"] = v6
+                    mine.append(f)
+            summ6["variant"] = v6
+            rsum.append(summ6)
+        extra_cov = {"extraction_in_rewriting_runs": {"recorder": rsum}}
     if prop == "C14":
         import rw
         f2, st2, summ2, ndumps = rw.c14_constfold(tier)
